@@ -90,6 +90,10 @@ def run(tier="quick", seed=1, replay=None):
             twins = [[]] + [[dict(slot="ca", b=b, f=f)] for b in (1, 2, 3) for f in ("flip", "trunc1")]
             for k, first in enumerate(twins):
                 scripts.append(dict(t=t0s + k + 1, pre="twin", attempts=[first, []]))
+            # a corrupted download whose caller goes away when the verification stage starts, then a fault-free retry
+            t0s = len(scripts)
+            for b in (1, 2, 3):
+                scripts.append(dict(t=t0s + b, pre="none", attempts=[[dict(slot="ca", b=b, f="flip"), dict(slot="v", b=0, f="cancel")], []]))
             scripts += vf.load_witnesses(PROP)
             cov["bounds"] = f"{len(singles)} single-fault attempts exhaustively, {len(pick) - len(singles)} two-attempt scripts with <= 2 faults each sampled; every script ends with a fault-free attempt"
         recs, v, _ = vf.replay_and_validate(wd, scripts, "./server", "TestVFPullReplay", ["server"], "Trace_Pull",
